@@ -252,7 +252,8 @@ class PackBanner(Unit):
         pdir = ex.sym(STR, "pack_dir")
         L = FS.listing(pdir.t)
         obj = HObj(d.SimfilePack, {"pack_dir": pdir, "filesystem": fs, "_path": HObj(FSPath, {"filesystem": fs}, "_path")}, "self")
-        exts = list(e.IMAGE)
+        from props.constants_common import STATED_IMAGE_PRIORITY
+        exts = list(STATED_IMAGE_PRIORITY)       # the statement's priority, not the module's
 
         def has_ext(x, ext):
             return z3.SuffixOf(strval(ext), M.str_lower(x))
@@ -425,3 +426,7 @@ def _thorough_bounded():
 
 
 THOROUGH_BOUNDED = _thorough_bounded()
+
+# tables the statement pins down by value (props/constants_common.py)
+from props.constants_common import ClosedConstants   # noqa: E402
+UNITS = list(UNITS) + [ClosedConstants('image-priority', 'audio-extensions')]
